@@ -39,6 +39,24 @@ def main():
             b.optimize()
         return b
 
+    def sibling(seed, run=True):
+        """the SAME problem (same D, bounds, target family) under another seed / budget / design size:
+        the history most likely to collide with any per-process cache"""
+        rs = np.random.RandomState(seed)
+        sp = json.loads(json.dumps(spec))
+        sp["options"]["random_seed"] = int(rs.randint(1, 10**6))
+        sp["options"]["max_fun_evals"] = int(rs.choice([40, 70]))
+        if rs.rand() < 0.6:
+            sp["options"]["fun_eval_start"] = int(rs.choice([8, 30, 64]))
+            sp["options"]["max_fun_evals"] += sp["options"]["fun_eval_start"]
+        if sp.get("x0") is not None and rs.rand() < 0.5:
+            sp["x0"] = None if sp["cons"]["kind"] == "none" else sp["x0"]
+        P2 = gen.Problem(sp)
+        b = BADS(P2.fun, non_box_cons=P2.cons, options=dict(P2.options), **P2.bads_args())
+        if run:
+            b.optimize()
+        return b
+
     def state_digest():
         st = np.random.get_state()
         return hashlib.sha1(st[1].tobytes() + str(st[2:]).encode()).hexdigest()[:12]
@@ -75,6 +93,8 @@ def main():
             random.random()
         elif step[0] == "construct":
             keep.append(unrelated(step[1], step[2], False, False))
+        elif step[0] == "sibling":
+            keep.append(sibling(step[1], step[2]))
     out["state_at_construction"] = state_digest()
     b, calls = build()
     for step in plan.get("mid", []):
@@ -86,6 +106,8 @@ def main():
                 np.random.seed(step[2])
         elif step[0] == "construct":
             keep.append(unrelated(step[1], step[2], False, False))
+        elif step[0] == "sibling":
+            keep.append(sibling(step[1], step[2]))
     out["state_at_optimize"] = state_digest()
     r = b.optimize()
     out["calls"] = calls
